@@ -1,8 +1,10 @@
 #!/bin/bash
+# ONLY=<regex> restricts the ids (e.g. ONLY="-[cd]$"); TIER args are passed to ./check
 # run every seeded change against the check of its own property (quick tier, thorough for those marked); prints one line per change
 cd /verif
 for d in seeded/*/; do
   id=$(basename $d); p=${id%-*}
+  if [ -n "${ONLY:-}" ] && ! echo "$id" | grep -Eq -- "$ONLY"; then continue; fi
   patch=$d/patch.diff; [ -f $d/patch.head.diff ] && patch=$d/patch.head.diff
   if ! git -C /repo apply --check /verif/$patch 2>/dev/null; then echo "$id: patch does not apply on HEAD"; continue; fi
   git -C /repo apply /verif/$patch
